@@ -307,12 +307,12 @@ class SandboxedEnvironment(Environment):
                     except AttributeError:
                         pass
                     else:
+                        if not self.is_safe_attribute(obj, attr, value):
+                            return self.unsafe_undefined(obj, attr)
                         fmt = self.wrap_str_format(value)
                         if fmt is not None:
                             return fmt
-                        if self.is_safe_attribute(obj, attr, value):
-                            return value
-                        return self.unsafe_undefined(obj, attr)
+                        return value
         return self.undefined(obj=obj, name=argument)
 
     def getattr(self, obj: t.Any, attribute: str) -> t.Any | Undefined:
@@ -327,12 +327,12 @@ class SandboxedEnvironment(Environment):
             except (TypeError, LookupError, AttributeError):
                 pass
         else:
+            if not self.is_safe_attribute(obj, attribute, value):
+                return self.unsafe_undefined(obj, attribute)
             fmt = self.wrap_str_format(value)
             if fmt is not None:
                 return fmt
-            if self.is_safe_attribute(obj, attribute, value):
-                return value
-            return self.unsafe_undefined(obj, attribute)
+            return value
         return self.undefined(obj=obj, name=attribute)
 
     def unsafe_undefined(self, obj: t.Any, attribute: str) -> Undefined:
